@@ -633,7 +633,8 @@ def replay(case, rec):
 
 
 # ---------------------------------------------------------------------------------------
-# Known defects of the pinned tree (all also present in release 1.3.0), as REGIONS of the a-priori partition.
+# Defects found in the pinned tree (all also present in release 1.3.0), as REGIONS of the a-priori partition.  status='fixed'
+# regions were repaired by the listed fix: commits (their cells no longer suppress anything); status='known' regions remain.
 # A region lists the cells that one code mechanism can reach (reasoned from the mechanism, not from the seeds
 # that happened to hit it); findings.d/C12.json is the expansion written by  python -m vf.props.C12 --write-findings.
 # ceiling = bits beyond the tolerance that the mechanism can cost in that cell (None: the mechanism can destroy
@@ -641,91 +642,112 @@ def replay(case, rec):
 # ---------------------------------------------------------------------------------------
 BOTH = ('yes', 'no')
 KNOWN_REGIONS = [
-    dict(id='atan-atanh-small', funcs=['atan', 'atanh'], kinds='C', specials=['0'], dists=['near', 'vnear'],
+    dict(id='atan-atanh-small', status='fixed', commit='c000fdb', funcs=['atan', 'atanh'], kinds='C', specials=['0'], dists=['near', 'vnear'],
          mags={'small': 40, 'tiny': None}, aniso=BOTH,
          what='complex atan/atanh subtract two logarithms computed with p+15 bits absolute accuracy (mpc_atan, mpc_atanh): for |z| << 1 '
               'both parts lose log2(1/|z|)-15 bits, for |z| < 2^-p they are rounding noise',
          witness={'call': 'atan(mpc(1e-10,1e-10))', 'prec': 53, 'observed': '(1.0e-10 + 9.99999999968311e-11j)',
                   'exact': '(1.0e-10 + 1.0000000000000000003e-10j)'}),
-    dict(id='asin-asinh-small', funcs=['asin', 'asinh'], kinds='C', specials=['0'], dists=['near', 'vnear'],
+    dict(id='asin-asinh-small', status='fixed', commit='01d3a31', funcs=['asin', 'asinh'], kinds='C', specials=['0'], dists=['near', 'vnear'],
          mags={'small': 40, 'tiny': None}, aniso=BOTH,
          what='complex asin/asinh (acos_asin, Hull et al. regions) work with p+10 bits relative to 1: for |z| << 1 both parts lose '
               'log2(1/|z|)-10 bits; the smaller part of a tiny or anisotropic argument is lost entirely',
          witness={'call': 'asin(mpc(-2**-39,-2**-39))', 'prec': 262, 'observed_error_bits_beyond_tolerance': 27}),
-    dict(id='reciprocal-huge', funcs=['acot', 'acoth', 'acsc', 'acsch'], kinds='C', specials=['inf'], dists=['near', 'vnear'],
+    dict(id='reciprocal-huge', status='fixed', commit='c000fdb+01d3a31', funcs=['acot', 'acoth', 'acsc', 'acsch'], kinds='C', specials=['inf'], dists=['near', 'vnear'],
          mags={'large': 40, 'huge': None}, aniso=BOTH,
          what='acot/acoth/acsc/acsch(z) = atan/atanh/asin/asinh(1/z): for huge |z| the small argument 1/z hits the small-argument defect of '
               'the base function (atan-atanh-small / asin-asinh-small)',
          witness={'call': 'acot(mpc(2**100, 2**60))', 'prec': 53}),
-    dict(id='near-one', funcs=['acos', 'acosh', 'asec', 'asech', 'acsc', 'acoth'], kinds='RC', specials=['1', '-1'],
+    dict(id='near-one', status='fixed', commit='ef5e701+38231bb+01d3a31', funcs=['acos', 'acosh', 'asec', 'asech', 'acsc', 'acoth'], kinds='RC', specials=['1', '-1'],
          dists=['near', 'vnear'], mags={'unit': None}, aniso=BOTH,
          what='acosh(x) = log(x + sqrt(x^2-1)) with the sum rounded at p+15 bits (mpf_acosh) and acos next to +-1 lose up to half of the '
               'bits; asec/asech/acsc/acoth(x) = f(1/x) round 1/x to the working precision first (next to +-1 this loses the distance to 1: '
               'results 0, inf or with half of the bits)',
          witness={'call': 'acosh(1+2**-40)', 'prec': 53, 'correct_bits': 48}),
-    dict(id='reciprocal-near-i', funcs=['acot', 'acsch'], kinds='C', specials=['i', '-i'], dists=['near', 'vnear'],
+    dict(id='reciprocal-near-i', status='fixed', commit='38231bb', funcs=['acot', 'acsch'], kinds='C', specials=['i', '-i'], dists=['near', 'vnear'],
          mags={'unit': None}, aniso=BOTH,
          what='acot(z) = atan(1/z), acsch(z) = asinh(1/z) round 1/z first: next to the branch points +-i the distance to the branch point '
               'is lost (results inf or inaccurate)',
          witness={'call': 'acot(mpc(0, 1-2**-174))', 'prec': 87, 'observed': '(0.0 - infj)'}),
-    dict(id='acosh-branch-sign', funcs=['acosh'], kinds='C', specials=['0', '1', '-1'], dists=['far', 'near', 'vnear'],
+    dict(id='acosh-branch-sign', status='fixed', commit='b145480', funcs=['acosh'], kinds='C', specials=['0', '1', '-1'], dists=['far', 'near', 'vnear'],
          mags={'tiny': None, 'small': None, 'unit': None}, aniso=BOTH,
          what='mpc_acosh chooses between +i acos(z) and -i acos(z) from the sign of the COMPUTED Im acos(z), which underflows to 0 when '
               '|Im z| is below the working precision: for Im z < 0 the imaginary part of acosh gets the wrong sign',
          witness={'call': 'acosh(mpc(0.5,-1e-40))', 'prec': 53, 'observed': '(0.0 + 1.0471975511966j)',
                   'exact': '(1.1547e-40 - 1.0471975511966j)'}),
-    dict(id='asech-branch-sign', funcs=['asech'], kinds='C', specials=['1', '-1', 'inf'], dists=['far', 'near', 'vnear'],
+    dict(id='asech-branch-sign', status='fixed', commit='b145480', funcs=['asech'], kinds='C', specials=['1', '-1', 'inf'], dists=['far', 'near', 'vnear'],
          mags={'unit': None, 'large': None, 'huge': None}, aniso=BOTH,
          what='asech(z) = acosh(1/z) inherits the branch-sign defect of mpc_acosh (and its small-part loss) for arguments next to the '
               'real axis and for huge arguments',
          witness={'call': 'asech(mpc(-2.0000000000000004, 2**-1000))', 'prec': 601}),
-    dict(id='tan-pole-cancellation', funcs=['tan', 'cot'], kinds='C', specials=['kpi2'], dists=['near', 'vnear'],
+    dict(id='tan-pole-cancellation', status='fixed', commit='095c617', funcs=['tan', 'cot'], kinds='C', specials=['kpi2'], dists=['near', 'vnear'],
          mags={'unit': None, 'large': None}, aniso=BOTH,
          what='mpc_tan divides by cos(2a)+cosh(2b) computed with p+15 bits ("TODO: handle cancellation"): next to the poles (and for cot '
               'next to the zeros of tan) the denominator cancels; the result is inaccurate, wrong by orders of magnitude or the '
               'division raises ZeroDivisionError',
          witness={'call': 'tan(mpc(0xbfd560593060335*2**-49, 2**-30))', 'prec': 30, 'observed': 'ZeroDivisionError'}),
-    dict(id='tanh-pole-cancellation', funcs=['tanh'], kinds='C', specials=['ikpi2'], dists=['near', 'vnear'],
+    dict(id='tanh-pole-cancellation', status='fixed', commit='095c617', funcs=['tanh'], kinds='C', specials=['ikpi2'], dists=['near', 'vnear'],
          mags={'unit': None, 'large': None}, aniso=BOTH,
          what='mpc_tanh = -i tan(iz) inherits the denominator cancellation of mpc_tan next to the poles i(k+1/2)pi',
          witness={'call': 'tanh(mpc(-2**-24, 221069929750889*2**-47))', 'prec': 24, 'observed': 'ZeroDivisionError'}),
-    dict(id='cospi-sinpi-imag', funcs=['cospi', 'sinpi'], kinds='C', specials=['inf'], dists=['far', 'near', 'vnear'],
+    dict(id='cospi-sinpi-imag', status='fixed', commit='88edf5a', funcs=['cospi', 'sinpi'], kinds='C', specials=['inf'], dists=['far', 'near', 'vnear'],
          mags={'large': 48, 'huge': None}, aniso=BOTH,
          what='mpc_cos_pi/mpc_sin_pi round pi*Im(z) to p+5 bits before cosh/sinh: the relative error of the result grows like |pi Im z| '
               '(2-3 bits beyond the tolerance at |Im z| = 64, everything for |Im z| >= 2^p)',
          witness={'call': 'cospi(mpc(-0.998, 64))', 'prec': 100, 'observed_error': '47 * 2^-p'}),
-    dict(id='cosh-sinh-vanish-threshold', funcs=['tanh', 'sinh', 'cosh'], kinds='RC', specials=['inf'], dists=['near'],
+    dict(id='cosh-sinh-vanish-threshold', status='fixed', commit='33d3ba9', funcs=['tanh', 'sinh', 'cosh'], kinds='RC', specials=['inf'], dists=['near'],
          mags={'large': 72}, aniso=BOTH,
          what='mpf_cosh_sinh drops exp(-2|x|) when 3*2^(mag-1) > p+14, but exp(-2|x|) < 2^-(p+14) needs 2.885*2^(mag-1) > p+14: for '
               '1024 <= |x| < (p+14)/2.885 and 2940 < p < 3058 tanh returns +-1 and cosh/sinh return exp(|x|)/2 with an error up to '
               '2^(p-2951) ulp',
          witness={'call': 'tanh(-1024)', 'prec': 3000, 'observed': '-1.0', 'exact': '-1 + 2^-2953.6'}),
-    dict(id='root-newton-margin', funcs=['root'], kinds='RC', specials=['0', 'inf'], dists=['far', 'near', 'vnear'],
+    dict(id='root-newton-margin', status='fixed', commit='a0e9ed2', funcs=['root'], kinds='RC', specials=['0', 'inf'], dists=['far', 'near', 'vnear'],
          mags={'tiny': 48, 'small': 48, 'unit': 48, 'large': 48, 'huge': 48}, aniso=BOTH,
          what='nthroot_fixed doubles the precision in every Newton step with a fixed 4-bit margin (also in the first step from the 50-bit '
               'float estimate) although the error constant of the iteration is (n-1)/2: for n >= 6 and unlucky precisions (2999-3050, '
               '1500, 750) root(x, n) loses tens of bits',
          witness={'call': 'root(10, 9)', 'prec': 3050, 'observed_relative_error': '6.3e-895 = 2**79 ulp',
                   'also': 'root(10,7) at prec 2999: 2**25 ulp'}),
-    dict(id='log-quarter-long-mantissa', funcs=['ln', 'log10', 'log:base', 'log1p', 'root', 'power:int', 'power:half', 'power:real',
+    dict(id='log-quarter-long-mantissa', status='fixed', commit='8f32f68', funcs=['ln', 'log10', 'log:base', 'log1p', 'root', 'power:int', 'power:half', 'power:real',
                                                 'power:complex', 'powm1:int', 'powm1:half', 'powm1:real', 'powm1:complex'],
          kinds='RC', specials=['0'], dists=['far'], mags={'unit': None}, aniso=BOTH,
          what='mpf_log treats magnitude -1 like magnitude +1 (abs_mag <= 1): an argument in [1/4, 1/2) with a mantissa longer than p+20 '
               'bits whose bits below the leading one vanish for more than p+20 places is handled as "1 + eps" and log returns about eps',
          witness={'call': 'ln(mpf(0.25) + 2**-163)  (exact 162-bit argument)', 'prec': 81, 'observed': '2**-161',
                   'exact': '-1.3862943611198906'}),
-    dict(id='complex-power-exponent-guard', funcs=['power:int', 'power:real', 'power:complex'], kinds='C', specials=['0', 'inf'],
+    dict(id='complex-int-power-guard', status='fixed', commit='8a43674', funcs=['power:int'], kinds='C', specials=['0', 'inf'],
          dists=['near', 'vnear'], mags={'tiny': 14, 'small': 14, 'large': 14, 'huge': 14}, aniso=BOTH,
          what='complex powers z**w with |w log z| ~ 2^19 (|w| to 1000, |z| to 2^+-1000) lose a few bits more than the guard bits of '
               'mpc_pow/mpc_pow_int provide (log2|w log z| - guard)',
          witness={'call': 'power(mpc(901*2**-742, -513*2**-746), 789)', 'prec': 10, 'observed_error': 'about 100 %'}),
+    # ---- still present on the tree after the fix: commits above --------------------------------------------------
+    dict(id='reciprocal-argument-beyond-2p', status='known', funcs=['asec', 'asech'], kinds='RC', specials=['1'],
+         dists=['vnear'], mags={'unit': None}, aniso=BOTH, what=None, witness=None),      # text: next entry (next to -1 the value is ~pi)
+    dict(id='reciprocal-argument-beyond-2p', status='known', funcs=['acoth'], kinds='RC', specials=['1', '-1'],
+         dists=['vnear'], mags={'unit': None}, aniso=BOTH,
+         what='asec/asech/acoth(z) = f(1/z) now form 1/z with twice the working precision; an exact argument 1 +- 2^-k with k > 2p+20 '
+              '(a mantissa longer than twice the precision) still rounds to 1/z = 1: asec/asech return 0, acoth returns inf or loses '
+              'the distance to the branch point (acot likewise next to +-i: key acot/C/nonfinite)',
+         witness={'call': 'asec(fadd(1, 2**-300, exact=True))', 'prec': 53, 'observed': '0.0', 'exact': '9.908676465903736e-46',
+                  'also': 'acoth(same) = +inf, exact 104.31865067427177; acot(mpc(0, 1-2**-300) built exactly) = (0 - inf j), exact '
+                          '(-1.5707963267948966 - 104.31865067427177j)'}),
+    dict(id='complex-power-exponent-guard', status='known', funcs=['power:real', 'power:complex'], kinds='C', specials=['0'],
+         dists=['near', 'vnear'], mags={'tiny': 8}, aniso=BOTH, what=None, witness=None),
+    dict(id='complex-power-exponent-guard', status='known', funcs=['power:real', 'power:complex'], kinds='C', specials=['inf'],
+         dists=['near', 'vnear'], mags={'huge': 8}, aniso=BOTH,
+         what='complex powers z**w with real or complex w and |w log z| ~ 2^13..2^19 (|z| to 2^+-1000) lose 1-2 bits more than the guard '
+              'bits of mpc_pow provide (the integer-exponent path was fixed in 8a43674)',
+         witness={'call': 'power(mpc(528383*2**805, 524289*2**366), mpc(0x7fffffffffffffffff*2**-67, -0x7ff000000000000001*2**-73))',
+                  'prec': 71, 'observed': '(-1.50022954650119051e+3968 + 6.6487819333996095499e+3968j)',
+                  'error': '22.8 * 2^-71 of the larger part (tolerance 16 * 2^-71)'}),
 ]
 # mechanism keys that are not cells of the partition
 KNOWN_OTHER = [
     ('C12/tan/C/raises:ZeroDivisionError', 'tan-pole-cancellation'), ('C12/cot/C/raises:ZeroDivisionError', 'tan-pole-cancellation'),
     ('C12/tanh/C/raises:ZeroDivisionError', 'tanh-pole-cancellation'),
-    ('C12/acot/C/nonfinite', 'reciprocal-near-i'), ('C12/acsch/C/nonfinite', 'reciprocal-near-i'),
-    ('C12/acoth/C/nonfinite', 'near-one'), ('C12/acoth/R/nonfinite', 'near-one'),
+    ('C12/acsch/C/nonfinite', 'reciprocal-near-i'),
+    ('C12/acot/C/nonfinite', 'reciprocal-argument-beyond-2p'), ('C12/acoth/C/nonfinite', 'reciprocal-argument-beyond-2p'),
+    ('C12/acoth/R/nonfinite', 'reciprocal-argument-beyond-2p'),
 ]
 
 
@@ -733,7 +755,12 @@ def known_findings():
     out = []
     by_id = {}
     for reg in KNOWN_REGIONS:
-        by_id[reg['id']] = reg
+        if reg.get('what') or reg['id'] not in by_id:
+            by_id[reg['id']] = reg
+    for reg in KNOWN_REGIONS:
+        if not reg.get('what'):
+            reg['what'], reg['witness'] = by_id[reg['id']]['what'], by_id[reg['id']]['witness']
+    for reg in KNOWN_REGIONS:
         for f in reg['funcs']:
             base = f.split(':')[0]
             for kind in reg['kinds']:
@@ -747,26 +774,38 @@ def known_findings():
                                 if kind == 'R' and an == 'yes':
                                     continue
                                 key = 'C12/%s/%s/%s:%s/%s/aniso:%s' % (f, kind, sp, d, mag, an)
-                                out.append({'property': 'C12', 'key': key, 'status': 'known', 'mechanism': reg['id'],
-                                            'what': reg['what'], 'witness': reg['witness'], 'ceiling': ceil})
+                                out.append(_entry(key, reg, ceil))
     for key, rid in KNOWN_OTHER:
-        reg = by_id[rid]
-        out.append({'property': 'C12', 'key': key, 'status': 'known', 'mechanism': rid, 'what': reg['what'],
-                    'witness': reg['witness'], 'ceiling': None})
-    # a cell may belong to two regions (acosh near +-1: near-one and acosh-branch-sign): keep the laxer ceiling, join the texts
+        out.append(_entry(key, by_id[rid], None))
+    # a cell may belong to several regions: a region that is still 'known' wins over fixed ones; among equals the texts are
+    # joined and the laxer ceiling kept
     merged = {}
     for f in out:
         m = merged.get(f['key'])
         if m is None:
             merged[f['key']] = f
+        elif m['status'] == 'known' and f['status'] == 'fixed':
+            continue
+        elif m['status'] == 'fixed' and f['status'] == 'known':
+            merged[f['key']] = f
         else:
             m['mechanism'] += '+' + f['mechanism']
             m['what'] += ' | ' + f['what']
+            if f.get('commit') and f['commit'] not in m.get('commit', ''):
+                m['commit'] = (m.get('commit', '') + '+' + f['commit']).strip('+')
             if f['ceiling'] is None or m['ceiling'] is None:
                 m['ceiling'] = None
             else:
                 m['ceiling'] = max(m['ceiling'], f['ceiling'])
     return list(merged.values())
+
+
+def _entry(key, reg, ceil):
+    e = {'property': 'C12', 'key': key, 'status': reg.get('status', 'known'), 'mechanism': reg['id'], 'what': reg['what'],
+         'witness': reg['witness'], 'ceiling': ceil}
+    if reg.get('commit'):
+        e['commit'] = reg['commit']
+    return e
 
 
 if __name__ == '__main__':
